@@ -66,6 +66,7 @@ type opDesc struct {
 	Sector int         `json:"sector"`
 	Len    uint64      `json:"len,omitempty"`   // read: bytes read from offset 0
 	Token  string      `json:"token,omitempty"` // ok wrongkey other expired
+	Mode   string      `json:"mode,omitempty"`  // expire: height (mine up to the proof height) | renew
 }
 
 func (o opDesc) String() string {
@@ -86,6 +87,8 @@ func (o opDesc) String() string {
 		return fmt.Sprintf("%s(%s)", o.Kind, strings.Join(es, ","))
 	case "read":
 		return fmt.Sprintf("read(a%d,s%d,len=%d,%s)", o.A, o.Sector, o.Len, o.Token)
+	case "expire":
+		return fmt.Sprintf("expire(c%d,%s)", o.C, o.Mode)
 	}
 	return fmt.Sprintf("%s(a%d,s%d,%s)", o.Kind, o.A, o.Sector, o.Token)
 }
@@ -152,6 +155,7 @@ func eventsString(es []event) string {
 type cview struct {
 	RevNum       uint64
 	Renter, Host *big.Int
+	Revisable    bool // not renewed and the proof height not reached at the host's tip
 }
 
 type ledger struct {
@@ -182,7 +186,7 @@ func (l *ledger) clone() *ledger {
 	}
 	c.stored = l.stored
 	for i := range l.contract {
-		c.contract[i] = cview{l.contract[i].RevNum, new(big.Int).Set(l.contract[i].Renter), new(big.Int).Set(l.contract[i].Host)}
+		c.contract[i] = cview{l.contract[i].RevNum, new(big.Int).Set(l.contract[i].Renter), new(big.Int).Set(l.contract[i].Host), l.contract[i].Revisable}
 	}
 	return c
 }
@@ -236,6 +240,7 @@ type expect struct {
 	insufficient bool // a priced RPC with a valid request whose drawable funds are below the cost
 	badToken     bool
 	unauthorized bool // attach/detach with an entry that is not validly signed (or expired / malformed)
+	unrevisable  bool // a credit was requested against a contract that is no longer revisable
 	cost         *big.Int
 	boundary     int // drawable - cost if within [-1,1], else 99
 }
@@ -279,6 +284,12 @@ func (sc *scen) expected(o opDesc) expect {
 		if cv.Renter.Cmp(total) < 0 {
 			return false
 		}
+		if !cv.Revisable {
+			// a revision of a renewed contract, or of one past its proof height, can
+			// never move funds on chain: it matches no credit
+			ex.unrevisable = true
+			return false
+		}
 		m := l.acct
 		if pool {
 			m = l.pool
@@ -297,6 +308,9 @@ func (sc *scen) expected(o opDesc) expect {
 		return true
 	}
 	switch o.Kind {
+	case "expire":
+		l.contract[o.C].Revisable = false
+		ex.ok = true
 	case "fund":
 		if o.Signer != "ok" || len(o.Deps) == 0 {
 			return fail()
@@ -349,6 +363,10 @@ func (sc *scen) expected(o opDesc) expect {
 		}
 		ex.payload = amts
 		ex.ok = true
+		if !l.contract[o.C].Revisable {
+			ex.unrevisable = true
+			return fail()
+		}
 		if total.Sign() == 0 {
 			return ex
 		}
@@ -503,12 +521,13 @@ func newScen(h *hostEnv, r *rng.R) (*scen, error) {
 		sc.ref.stored[i] = has
 	}
 	for i := range h.contracts {
-		rev, err := h.stored(i)
+		rs, err := h.state(i)
 		if err != nil {
 			return nil, err
 		}
+		rev := rs.Revision
 		h.contracts[i].Revision = rev
-		sc.ref.contract[i] = cview{rev.RevisionNumber, bigCur(rev.RenterOutput.Value), bigCur(rev.HostOutput.Value)}
+		sc.ref.contract[i] = cview{rev.RevisionNumber, bigCur(rev.RenterOutput.Value), bigCur(rev.HostOutput.Value), rs.Revisable}
 	}
 	sc.init = sc.ref.clone()
 	h.rec.take()
@@ -576,6 +595,9 @@ func (sc *scen) exec(o opDesc) (coqOp string, ok bool, errStr string, payload []
 		}
 	}
 	switch o.Kind {
+	case "expire":
+		coqOp = fmt.Sprintf("Expire %d", o.C)
+		fin(h.expire(o.C, o.Mode))
 	case "fund":
 		contract := h.contracts[o.C]
 		signer, signerID := h.renter[o.C], renterKeyID(o.C)
@@ -879,11 +901,12 @@ func (sc *scen) observe(ob *observed) error {
 		ob.acct[k], ob.pool[k] = bigCur(ab[i]), bigCur(pb[i])
 	}
 	for i := range h.contracts {
-		rev, err := h.stored(i)
+		rs, err := h.state(i)
 		if err != nil {
 			return err
 		}
-		ob.con[i] = cview{rev.RevisionNumber, bigCur(rev.RenterOutput.Value), bigCur(rev.HostOutput.Value)}
+		rev := rs.Revision
+		ob.con[i] = cview{rev.RevisionNumber, bigCur(rev.RenterOutput.Value), bigCur(rev.HostOutput.Value), rs.Revisable}
 	}
 	return nil
 }
@@ -973,6 +996,9 @@ func (sc *scen) monitor(o opDesc, before *ledger, ex expect, ob *observed) (stri
 			if fr.Cmp(total) != 0 || to.Cmp(total) != 0 {
 				return "credit-without-matching-revision", describe("credited %v but the revision moved %v out of the renter output and %v into the host output", total, fr, to)
 			}
+			if tip := h.cm.Tip().Height; tip >= c.Rev.ProofHeight || h.renewalExists(c.Contract) {
+				return "credit-against-unrevisable-contract", describe("credited %v against contract %d, which can no longer be revised on chain (proof height %d, host tip %d, renewed %v)", total, sc.contractIdx(c.Contract), c.Rev.ProofHeight, tip, h.renewalExists(c.Contract))
+			}
 			if c.Rev.RevisionNumber <= c.Prev.RevisionNumber || !c.Prev.RenterPublicKey.VerifyHash(cs.ContractSigHash(c.Rev), c.Rev.RenterSignature) {
 				return "credit-without-renter-signature", describe("the revision persisted with the credit is not a newer revision signed by the renter")
 			}
@@ -998,6 +1024,11 @@ func (sc *scen) monitor(o opDesc, before *ledger, ex expect, ob *observed) (stri
 		last := h.rec.last[h.contracts[i].ID]
 		if ob.con[i].RevNum != last.RevisionNumber || ob.con[i].Renter.Cmp(bigCur(last.RenterOutput.Value)) != 0 {
 			return "contract-changed-without-credit", describe("contract %d holds revision %d, the last persisted one is %d", i, ob.con[i].RevNum, last.RevisionNumber)
+		}
+	}
+	for i := range ob.con {
+		if ob.con[i].Revisable != ex.after.contract[i].Revisable {
+			return "contract-lifetime-differs", describe("contract %d revisable=%v at the host, the scenario expects %v", i, ob.con[i].Revisable, ex.after.contract[i].Revisable)
 		}
 	}
 	// E. what the property says about this kind of RPC
@@ -1118,6 +1149,9 @@ func (sc *scen) step(o opDesc) (*failure, error) {
 	if ex.badToken {
 		sc.counts["bad-token"]++
 	}
+	if ex.unrevisable {
+		sc.counts["credit-refused-unrevisable:"+o.Kind]++
+	}
 	if o.Kind == "replA" || o.Kind == "replP" {
 		seen := map[int]bool{}
 		for _, k := range o.Keys {
@@ -1148,7 +1182,7 @@ func balList(m map[int]*big.Int) string {
 func (sc *scen) coqCase() string {
 	var cons, secs, steps []string
 	for i, c := range sc.init.contract {
-		cons = append(cons, fmt.Sprintf("(%d, Contract %d %d %s %s)", i, renterKeyID(i), c.RevNum, z(c.Renter), z(c.Host)))
+		cons = append(cons, fmt.Sprintf("(%d, Contract %d %d %s %s %v)", i, renterKeyID(i), c.RevNum, z(c.Renter), z(c.Host), c.Revisable))
 	}
 	for i, s := range sc.init.stored {
 		if s {
@@ -1161,7 +1195,7 @@ func (sc *scen) coqCase() string {
 			pl = append(pl, z(p))
 		}
 		for i, c := range st.obs.con {
-			cv = append(cv, fmt.Sprintf("(%d, (%d, %s, %s))", i, c.RevNum, z(c.Renter), z(c.Host)))
+			cv = append(cv, fmt.Sprintf("(%d, (%d, %s, %s, %v))", i, c.RevNum, z(c.Renter), z(c.Host), c.Revisable))
 		}
 		steps = append(steps, fmt.Sprintf("(%s,\n   Obs %v [%s] %s %s %s [%s])", st.coqOp, st.obs.ok, strings.Join(pl, "; "),
 			eventsString(st.obs.events), balList(st.obs.acct), balList(st.obs.pool), strings.Join(cv, "; ")))
@@ -1487,7 +1521,14 @@ func (g *gen) next(sc *scen, i int) []opDesc {
 			return []opDesc{g.fund(sc)}
 		}
 	}
-	switch weighted(r, []int{12, 10, 10, 12, 8, 48}) {
+	switch weighted(r, []int{12, 10, 10, 12, 8, 48, 2}) {
+	case 6:
+		// a contract reaches its proof height or is renewed: no credit against it any more
+		o := opDesc{Kind: "expire", C: 1, Mode: pick(r, []string{"height", "renew"})}
+		if r.Chance(1, 6) {
+			o.C, o.Mode = 0, "renew"
+		}
+		return []opDesc{o, g.replenish(sc, r.Bool()), g.fund(sc)}
 	case 0:
 		return []opDesc{g.fund(sc)}
 	case 1:
@@ -1625,19 +1666,64 @@ func (d dirSpec) plan(sc *scen) []opDesc {
 	return append(ops, svc, svc, svc)
 }
 
-func runPlanned(h *hostEnv, r *rng.R, d dirSpec) (*scen, []opDesc, *failure, error) {
+// A deadSpec makes a contract unrevisable (proof height reached, or renewed) and then tries
+// every crediting RPC against it, in a given order: all must be refused, state unchanged.
+type deadSpec struct {
+	C     int
+	Mode  string
+	Order []string
+}
+
+func deadSpecs() []deadSpec {
+	var specs []deadSpec
+	for i, p := range permutations([]int{0, 1, 2}) {
+		kinds := []string{"fund", "replA", "replP"}
+		order := []string{kinds[p[0]], kinds[p[1]], kinds[p[2]]}
+		specs = append(specs, deadSpec{1, "height", order}, deadSpec{1, "renew", order})
+		if i%3 == 0 {
+			specs = append(specs, deadSpec{0, "renew", order})
+		}
+	}
+	return specs
+}
+
+func (d deadSpec) plan() []opDesc {
+	ok := "ok"
+	ops := []opDesc{
+		{Kind: "fund", C: d.C, Deps: []depDesc{{K: 1, Amt: "1000"}}, Signer: ok},
+		{Kind: "replP", C: d.C, Keys: []int{4}, Target: "500", Signer: ok},
+		{Kind: "expire", C: d.C, Mode: d.Mode},
+	}
+	for _, k := range d.Order {
+		switch k {
+		case "fund":
+			ops = append(ops, opDesc{Kind: "fund", C: d.C, Deps: []depDesc{{K: 2, Amt: "700"}, {K: 1, Amt: "1"}}, Signer: ok})
+		case "replA":
+			ops = append(ops, opDesc{Kind: "replA", C: d.C, Keys: []int{1, 2}, Target: "2000", Signer: ok})
+		default:
+			ops = append(ops, opDesc{Kind: "replP", C: d.C, Keys: []int{4, 5}, Target: "900", Signer: ok})
+		}
+	}
+	return append(ops,
+		opDesc{Kind: "replP", C: d.C, Keys: []int{4}, Target: "400", Signer: ok}, // nothing to deposit: refused all the same
+		opDesc{Kind: "expire", C: d.C, Mode: d.Mode},                             // idempotent
+		opDesc{Kind: "fund", C: 1 - d.C, Deps: []depDesc{{K: 1, Amt: "300"}}, Signer: ok},
+		opDesc{Kind: "replP", C: 1 - d.C, Keys: []int{4, 5}, Target: "600", Signer: ok})
+}
+
+func runPlanned(h *hostEnv, r *rng.R, plan func(*scen) []opDesc) (*scen, []opDesc, *failure, error) {
 	sc, err := newScen(h, r)
 	if err != nil {
 		return nil, nil, nil, err
 	}
-	ops := d.plan(sc)
+	ops := plan(sc)
 	for i, o := range ops {
 		f, err := sc.step(o)
 		if err != nil || f != nil {
 			return sc, ops[:i+1], f, err
 		}
 	}
-	sc.counts["directed-attachment-order"]++
+	sc.counts["directed"]++
 	return sc, ops, sc.finish(), nil
 }
 
@@ -1722,15 +1808,35 @@ func shrink(h *hostEnv, r *rng.R, ops []opDesc, kind string) ([]opDesc, string) 
 
 // refresh replaces the small contract when it is nearly spent.
 func (h *hostEnv) refresh() error {
-	rev, err := h.stored(1)
+	tip := h.cm.Tip().Height
+	if tip > h.prices.TipHeight+300 {
+		st, err := rhp4.RPCSettings(context.Background(), h.transport)
+		if err != nil {
+			return err
+		}
+		h.settings, h.prices = st, st.Prices
+	}
+	rs, err := h.state(0)
 	if err != nil {
 		return err
 	}
-	if rev.RenterOutput.Value.Cmp(h.smallAllowance().Div64(4)) < 0 {
-		return h.form(1, h.smallAllowance(), types.ZeroCurrency)
+	if !rs.Revisable || tip+100 >= rs.Revision.ProofHeight {
+		if err := h.form(0, types.Siacoins(100), types.Siacoins(1), 500); err != nil {
+			return err
+		}
+	}
+	if rs, err = h.state(1); err != nil {
+		return err
+	}
+	if !rs.Revisable || h.cm.Tip().Height+3 >= rs.Revision.ProofHeight || rs.Revision.RenterOutput.Value.Cmp(h.smallAllowance().Div64(4)) < 0 {
+		return h.form(1, h.smallAllowance(), types.ZeroCurrency, shortProof)
 	}
 	return nil
 }
+
+// the small contract lives only a little longer than the minimum, so that its proof
+// height can be reached by mining
+const shortProof = proto4.MinContractDuration + 2
 
 func (h *hostEnv) smallAllowance() types.Currency {
 	return h.prices.RPCWriteSectorCost(proto4.SectorSize).RenterCost().Mul64(3)
@@ -1763,10 +1869,10 @@ func setupHost(r *rng.R, ps priceSpec) (*hostEnv, error) {
 	if err != nil {
 		return nil, err
 	}
-	if err := h.form(0, types.Siacoins(100), types.Siacoins(1)); err != nil {
+	if err := h.form(0, types.Siacoins(100), types.Siacoins(1), 500); err != nil {
 		return nil, err
 	}
-	if err := h.form(1, h.smallAllowance(), types.ZeroCurrency); err != nil {
+	if err := h.form(1, h.smallAllowance(), types.ZeroCurrency, shortProof); err != nil {
 		return nil, err
 	}
 	return h, nil
@@ -1780,7 +1886,7 @@ func nontrivial(counts map[string]int) bool {
 
 func runC15(c *hx.Ctx) {
 	res := c.Res
-	res.Rule = "sequences of fund / replenish accounts / replenish pools (duplicates, targets below, at and above the balance) / attach / detach (valid, wrong key, replayed, expired) / read / write / verify RPCs against a real rhp4 host over siamux, 3 accounts x 4 pools x 2 contracts (one nearly exhausted); directed scenarios attach 3 or 4 pools in every order, detach the first / a middle / the last link (or two in one batch), and then drain the pools partly so that the individual pool balances show the drain order, drawable funds steered to cost-1, cost, cost+1; non-trivial := at least one credit succeeded, one sector RPC was served and one was refused for insufficient funds; distinct by the operation sequence"
+	res.Rule = "sequences of fund / replenish accounts / replenish pools (duplicates, targets below, at and above the balance) / attach / detach (valid, wrong key, replayed, expired) / read / write / verify RPCs against a real rhp4 host over siamux, 3 accounts x 4 pools x 2 contracts (one nearly exhausted); directed scenarios attach 3 or 4 pools in every order, detach the first / a middle / the last link (or two in one batch), and then drain the pools partly so that the individual pool balances show the drain order; further directed scenarios let a contract reach its proof height or be renewed and then try every crediting RPC against it, drawable funds steered to cost-1, cost, cost+1; non-trivial := at least one credit succeeded, one sector RPC was served and one was refused for insufficient funds; distinct by the operation sequence"
 
 	if c.Replay != "" {
 		var rp struct {
@@ -1814,8 +1920,8 @@ func runC15(c *hx.Ctx) {
 	}
 
 	const workers = 8
-	specs := directedSpecs()
-	nScen := len(corpus()) + len(specs) + c.Scale(200, 4000)
+	specs, dead := directedSpecs(), deadSpecs()
+	nScen := len(corpus()) + len(specs) + len(dead) + c.Scale(170, 4000)
 	opsPer := c.Scale(22, 30)
 	seeds := make([]*rng.R, nScen)
 	hostSeeds := make([]*rng.R, workers)
@@ -1858,7 +1964,9 @@ func runC15(c *hx.Ctx) {
 					ops = pre[i]
 					sc, f, err = runOps(h, r.Fork(), ops)
 				} else if j := i - len(pre); j < len(specs) {
-					sc, ops, f, err = runPlanned(h, r.Fork(), specs[j])
+					sc, ops, f, err = runPlanned(h, r.Fork(), specs[j].plan)
+				} else if j -= len(specs); j < len(dead) {
+					sc, ops, f, err = runPlanned(h, r.Fork(), func(*scen) []opDesc { return dead[j].plan() })
 				} else {
 					sc, ops, f, err = runGenerated(h, r.Fork(), opsPer)
 				}
